@@ -24,6 +24,8 @@ first, conf = parse(ff)
 after, _ = parse(af)
 for s in sorted(first):
     p = f'{here}/seeded/{s}/meta.json'
+    if not os.path.exists(p):
+        print(s, 'not kept (no seeded dir)'); continue
     m = json.load(open(p))
     m['confirmed'] = conf.get(s, m.get('confirmed'))
     runs = [dict(harness=lb, **r) for r in first[s]] + [dict(harness=la, **r) for r in after.get(s, [])]
